@@ -37,6 +37,7 @@ type c10SharedCase struct {
 	Standalone []int   `json:"standalone"` // type objects whose own Check() is called before the first root
 	Between    bool    `json:"between"`    // type objects' Example()/GetAST() called between roots
 	Dup        bool    `json:"dup"`        // after registration every root also tries to register another object under a taken name (refused)
+	Rebind     int     `json:"rebind"`     // index of the type that further roots bind to another schema (-1: none)
 }
 
 // c10SharedObjs builds the shared objects of a project.
@@ -268,7 +269,68 @@ func c10SharedOne(r *mon.Run, cs c10SharedCase) {
 	}
 	r.Count("shared_types:histories_consistent", 1)
 	r.Count("shared_types:roots_compared_with_fresh_objects", int64(step))
-	r.Nontrivial("shared", projectKey(pt), fmt.Sprint(cs.Drop, cs.Fail, cs.OK, cs.Standalone, cs.Between, cs.Dup))
+	r.Nontrivial("shared", projectKey(pt), fmt.Sprint(cs.Drop, cs.Fail, cs.OK, cs.Standalone, cs.Between, cs.Dup, cs.Rebind))
+}
+
+
+// c10SharedRebind: one name bound to another schema. All roots share every type object but one: under that name
+// every second root registers an object with another text. Each root must answer like fresh objects with its
+// binding. (Only for projects without allOf: inheriting types are extended in place by design.)
+func c10SharedRebind(r *mon.Run, pt project, idx int) {
+	if idx < 0 || idx >= len(pt.Types) || pt.Types[idx].Regex || strings.Contains(projectKey(pt), "allOf") {
+		return
+	}
+	alt := ""
+	switch t := strings.TrimSpace(pt.Types[idx].Text); {
+	case strings.HasPrefix(t, `"`):
+		alt = `"B-2"`
+	case strings.HasPrefix(t, "{"):
+		alt = "{\n  \"zz\": 1\n}"
+	case strings.HasPrefix(t, "["):
+		alt = "[\n  true\n]"
+	case t != "" && (t[0] == '-' || (t[0] >= '0' && t[0] <= '9')):
+		alt = "111"
+	}
+	if alt == "" || alt == pt.Types[idx].Text {
+		return
+	}
+	r.Eval(1)
+	cs := c10SharedCase{Kind: "shared-types-rebind", Project: pt, Rebind: idx}
+	none := map[int]bool{}
+	ptB := project{Root: pt.Root, Rules: pt.Rules, Types: append([]typeDef(nil), pt.Types...)}
+	ptB.Types[idx] = typeDef{Name: pt.Types[idx].Name, Text: alt}
+	fa, fra := c10SharedObjs(pt)
+	wantA, pa := c10SharedRoot(pt, fa, fra, none, false)
+	fb, frb := c10SharedObjs(ptB)
+	wantB, pb := c10SharedRoot(ptB, fb, frb, none, false)
+	if pa != nil || pb != nil {
+		return
+	}
+	types, rules := c10SharedObjs(pt)
+	typesB := append([]schema.Schema(nil), types...)
+	typesB[idx] = jschema.New(ptB.Types[idx].Name, alt)
+	key := fmt.Sprintf("shared types: root with %s bound to another schema ; %s", pt.Types[idx].Name, mon.Trunc(projectKey(pt), 300))
+	for i := 0; i < 4; i++ {
+		var got, want string
+		var p *mon.Panic
+		if i%2 == 0 {
+			got, p = c10SharedRoot(pt, types, rules, none, false)
+			want = wantA
+		} else {
+			got, p = c10SharedRoot(ptB, typesB, rules, none, false)
+			want = wantB
+		}
+		if p != nil {
+			r.Violate("panic", key+" "+p.Site, "a root over shared type objects panicked: "+p.Value, cs)
+			return
+		}
+		if got != want {
+			r.Violate("history-dependent", key, fmt.Sprintf("root %d shares every type object with the earlier roots except %s, which every second root binds to %q; it answers differently from fresh objects with the same binding: %s", i+1, pt.Types[idx].Name, alt, c07FirstDiff(want, got)), cs)
+			return
+		}
+	}
+	r.Count("shared_types:histories_with_a_rebound_name", 1)
+	r.Nontrivial("rebind", projectKey(pt), fmt.Sprint(idx))
 }
 
 // c10SharedTouch reads from the shared type objects between two roots.
@@ -300,6 +362,9 @@ func c10SharedFixed() []project {
 		{Root: `{"k": @t | @u}`, Types: []typeDef{{Name: "@t", Text: `{"x": @u // {optional: true}` + "\n}"}, {Name: "@u", Text: `"s" // {or: [{type: "@v", nullable: true}, "string"]}`}, {Name: "@v", Text: `"vv" // {minLength: 2}`}}},
 		{Root: `{@k: 1}`, Types: []typeDef{{Name: "@k", Text: `"abc" // {type: "@s"}`}, {Name: "@s", Text: `"abc" // {minLength: 1}`}}},
 		{Root: `{} // {additionalProperties: "@t"}`, Types: []typeDef{{Name: "@t", Text: obj(`"@a"`, ` "own": 1 // {enum: @e}`)}, {Name: "@a", Text: `{"ida": 7}`}}, Rules: []typeDef{{Name: "@e", Text: "[1, 2]"}}},
+		{Root: `{"data": @w}`, Types: []typeDef{{Name: "@w", Text: `{"id": @id}`}, {Name: "@id", Text: `111`}}},
+		{Root: `[@w, @id]`, Types: []typeDef{{Name: "@w", Text: `{"id": @id, "ids": [@id]}`}, {Name: "@id", Text: `"A-1" // {minLength: 1}`}}},
+		{Root: `{"k": @c}`, Types: []typeDef{{Name: "@c", Text: `@x | @y`}, {Name: "@x", Text: `{"x": 1}`}, {Name: "@y", Text: `[1]`}}},
 		{Root: `"a1" // {type: "@r"}`, Types: []typeDef{{Name: "@r", Text: `/[a-c][0-9]/`, Regex: true}, {Name: "@t", Text: obj(`"@a"`, ` "own": "b2" // {type: "@r"}`)}, {Name: "@a", Text: `{"ida": 7}`}}},
 	}
 }
@@ -324,7 +389,7 @@ func c10SharedRun(r *mon.Run) {
 			}
 		}
 		for _, d := range drops {
-			cs := c10SharedCase{Kind: "shared-types", Project: pt, Drop: d, Fail: 1 + rr.IntN(2), OK: 1 + rr.IntN(3), Between: rr.IntN(3) == 0, Dup: rr.IntN(3) == 0}
+			cs := c10SharedCase{Kind: "shared-types", Project: pt, Drop: d, Fail: 1 + rr.IntN(2), OK: 1 + rr.IntN(3), Between: rr.IntN(3) == 0, Dup: rr.IntN(3) == 0, Rebind: rr.IntN(2*n) - n}
 			if rr.IntN(4) == 0 {
 				cs.Standalone = []int{rr.IntN(n)}
 			}
@@ -334,6 +399,9 @@ func c10SharedRun(r *mon.Run) {
 	for _, pt := range c10SharedFixed() {
 		if r.Mine(idx) {
 			one(pt, rng)
+			for k := range pt.Types {
+				c10SharedRebind(r, pt, k)
+			}
 		}
 		idx++
 	}
@@ -345,6 +413,10 @@ func c10SharedRun(r *mon.Run) {
 		} else {
 			p = c07Random(rng)
 		}
-		one(toTexts(p, gen.DefaultLayout), rng)
+		pt := toTexts(p, gen.DefaultLayout)
+		one(pt, rng)
+		if len(pt.Types) > 0 {
+			c10SharedRebind(r, pt, rng.IntN(len(pt.Types)))
+		}
 	}
 }
